@@ -160,6 +160,10 @@ def csv_specs(box):
         win[f] = w
         for i, (tag, a, b) in enumerate(w):
             specs.append({"kind": "span", "description_row": bool(i % 2), "round": 12, "freq": f, "win": [a, b], "tag": tag})
+        # the covering window again as a backward span (newest period first in the file) and as a stepped span
+        # (every second period): each value must come back at the period written in its own row
+        specs.append({"kind": "span", "description_row": False, "round": 12, "freq": f, "win": [lo - 1, hi + 1], "tag": "backward", "step": -1})
+        specs.append({"kind": "span", "description_row": True, "round": 12, "freq": f, "win": [lo - 1, hi + 1], "tag": "stepped", "step": 2})
     if freqs:
         specs.append({"kind": "fspan", "description_row": False, "round": 3,
                       "fspan": [[f, win[f][0][1], win[f][0][2]] for f in freqs], "keys": "freq"})
@@ -198,7 +202,8 @@ def csv_expected(box, spec):
         if w is None:
             out[n] = x
         else:
-            out[n] = RS(x.freq, x.nvar, {(i, v): y for (i, v), y in x.d.items() if w[0] <= i <= w[1]}, "trim", x.desc)
+            step = abs(spec.get("step", 1))
+            out[n] = RS(x.freq, x.nvar, {(i, v): y for (i, v), y in x.d.items() if w[0] <= i <= w[1] and (i - w[0]) % step == 0}, "trim", x.desc)
     return out
 
 
@@ -208,7 +213,13 @@ def csv_kwargs(spec):
         kw["names"] = list(spec["names"])
     if spec["kind"] == "span":
         f, (a, b) = spec["freq"], spec["win"]
-        kw["span"] = R.mk_period(f, a) >> R.mk_period(f, b)
+        step = spec.get("step", 1)
+        if step == 1:
+            kw["span"] = R.mk_period(f, a) >> R.mk_period(f, b)
+        elif step < 0:
+            kw["span"] = ir.Span(R.mk_period(f, b), R.mk_period(f, a), step)
+        else:
+            kw["span"] = ir.Span(R.mk_period(f, a), R.mk_period(f, b), step)
     elif spec["kind"] == "fspan":
         fs = {}
         for f, a, b in spec["fspan"]:
@@ -216,6 +227,21 @@ def csv_kwargs(spec):
             fs[key] = ... if a == "..." else (R.mk_period(f, a) >> R.mk_period(f, b))
         kw["frequency_span"] = fs
     return kw
+
+
+@functools.lru_cache(maxsize=None)
+def _primer_items():
+    base = {C.Y: 2040, C.H: C.ordinal(C.H, 2040, 1), C.Q: C.ordinal(C.Q, 2040, 1), C.M: C.ordinal(C.M, 2040, 1),
+            C.D: C.ordinal(C.D, 2040, 10), C.I: 400}
+    return tuple((f, o) for f, o in base.items())
+
+
+def primer_box():
+    """another databox: one two-period series of every frequency, far away from every span of the pool"""
+    db = ir.Databox()
+    for f, o in _primer_items():
+        db["p%d" % f] = ir.Series(start=R.mk_period(f, o), values=(1.0, 2.0))
+    return db
 
 
 def csv_case(idx, box, spec, seed, workdir, res):
@@ -234,8 +260,21 @@ def csv_case(idx, box, spec, seed, workdir, res):
     db = R.build_box(box)
     before = R.bits_box(db)
     path = os.path.join(workdir, "t.csv")
+    kwargs = csv_kwargs(spec)
+    fs = kwargs.get("frequency_span")
+    if fs is not None and any(v is ... for v in fs.values()):
+        # export options kept in one object and used for another databox first: the "..." placeholders stand for
+        # "the whole span of THIS databox" in every call, and the caller's dict is not the library's to rewrite
+        try:
+            primer_box().to_csv_file(os.path.join(workdir, "p.csv"), when_empty="silent", frequency_span=fs)
+            res.count("csv_frequency_span_object_reused")
+        except Exception as e:
+            bad("csv_write_exception", "priming export: %s: %s" % (type(e).__name__, e), error=type(e).__name__)
+        _sig = lambda d: sorted((str(k), "..." if v is ... else repr(v)) for k, v in d.items())
+        if _sig(fs) != _sig(csv_kwargs(spec)["frequency_span"]):
+            bad("csv_options_modified", "to_csv_file rewrote the caller's frequency_span: %r" % (fs,))
     try:
-        info = db.to_csv_file(path, when_empty="silent", return_info=True, **csv_kwargs(spec))
+        info = db.to_csv_file(path, when_empty="silent", return_info=True, **kwargs)
     except Exception as e:
         bad("csv_write_exception", "%s: %s" % (type(e).__name__, e), error=type(e).__name__)
         return
@@ -1022,7 +1061,8 @@ def run(ctx, total, info):
     changing = total.counters.get("transitions_that_change_something", 0)
     ncls = lambda k: len(total.classes.get(k, ()))
     # measured on the unchanged tree (quick): 26811 / 25080 / 30291 / 28287 / 12071 / 50400 / 26705 / 23 / 54 / 46
-    info["floors"] = {"csv_round_trips": (n_csv, 13000), "csv_nontrivial": (nt_csv, 12000),
+    info["floors"] = {"csv_frequency_span_object_reused": (total.counters.get("csv_frequency_span_object_reused", 0), 1000),
+                      "csv_round_trips": (n_csv, 13000), "csv_nontrivial": (nt_csv, 12000),
                       "slate_conversions": (n_slate, 15000), "slate_nontrivial": (nt_slate, 14000),
                       "ops_states": (ex["states"], 6000), "ops_transitions": (ex["transitions"], 25000),
                       "ops_transitions_changing": (changing, 13000),
